@@ -40,7 +40,7 @@ CHECKS.update({
         'apply_control_n_gate == controlled embedding for every disjoint control subset (input not mutated); dm.apply_gate == E rho E^dagger; operator_expectation == Tr(rho Embed(O)); reduce_to_probability == Born marginal; inner_product_psi0_O_psi1; '
         'Circuit: loop-cut dispatch obligation (one iteration applies exactly (gate.array,index) through the proved function) => ordered product by induction on the gate list; to_unitary returns the matrix of apply_state; '
         'shift_qubit_index_ for a symbolic integer delta; every recording method appends exactly (Gate, normalised index); the qubit gate matrices rx, ry, rz, u3, rzz, pauli_exponential equal their textbook closed forms and are unitary for SYMBOLIC angles (trig normal form), the fixed gates exactly.',
-   note=ALG_NOTE + ' Induction over the gate list is the listed meta-step. Qudit rotations (d>2), custom gates, unitarity of to_unitary, query-modify-query histories of one circuit object and random circuits over the whole vocabulary are bounded (Kronecker-product oracle).',
+   note=ALG_NOTE + ' Induction over the gate list is the listed meta-step. Qudit rotations (d>2), custom gates, unitarity of to_unitary, query-modify-query histories of one circuit object (set_args, append, shift, setP twice, torch write-back), qubit indices given as python ints / lists / NumPy integer arrays incl. reversed and strided views, and random circuits over the whole vocabulary are bounded (Kronecker-product oracle).',
    tech=TECH + 'loop-body extraction for the circuit induction; run-time contract evaluation on random circuits as bounded stand-in'),
  'C11': dict(level='proof', ref='DESIGN.md §7 C11',
    text='For every non-empty ascending subset of n<=3 (4 thorough) qubits plus selected 4-6 qubit subsets, every outcome k, and a fully symbolic complex state: prob == Born marginal, sum prob == ||q||^2, the generator draws from the reported distribution, '
@@ -49,7 +49,7 @@ CHECKS.update({
    tech=TECH + 'RNG replaced by its contract (outcome enumeration); numeric runs on structured states as bounded stand-in'),
  'C12': dict(level='other', ref='DESIGN.md §7 C12',
    text='Proved (exact identities, symbolic complex Kraus operators / arbitrary operators and input, dim_in,dim_out in 1..3 (4), 1..3 (4) terms): apply_kraus == apply_choi o kraus_to_choi == apply_super o kraus_to_super == sum K rho K^dagger; Choi is the Gram matrix of the vectorised Kraus operators (=> CP); '
-        'choi<->super conversions mutually inverse and consistent with both applies on non-square dimension pairs; hf_channel_to_choi_op; the affine Bloch map reproduces the output Bloch vector; the three noise channels are trace preserving for a SYMBOLIC rate in [0,1]; choi_op_to_kraus_op / super_op_to_kraus_op with numpy.linalg.eigh replaced by its assumed contract (fixed rational eigenvalues, n0 below the threshold, and a fully symbolic eigenvector matrix): the Choi matrix of the returned Kraus operators is exactly the spectral part above the threshold, shapes (D-n0,dout,din); get_fidelity (numpy branch): the three pure-state cases are exact identities, the mixed/mixed case hands D V^dagger rho1 V D to eigvalsh (D = diag sqrt max(0,w)) and returns the squared sum of the roots of the non-negative eigenvalues (assumed eigh / eigvalsh contracts), d=2,3 (4). '
+        'choi<->super conversions mutually inverse and consistent with both applies on non-square dimension pairs; hf_channel_to_choi_op; the affine Bloch map reproduces the output Bloch vector; the three noise channels are trace preserving for a SYMBOLIC rate in [0,1]; choi_op_to_kraus_op / super_op_to_kraus_op with numpy.linalg.eigh replaced by its assumed contract (fixed rational eigenvalues, n0 below the threshold, and a fully symbolic eigenvector matrix): the Choi matrix of the returned Kraus operators is exactly the spectral part above the threshold, shapes (D-n0,dout,din); get_fidelity (numpy branch): the three pure-state cases are exact identities, the mixed/mixed case hands D V^dagger rho1 V D to eigvalsh (D = diag sqrt max(0,w)) and returns the squared sum of the roots of the non-negative eigenvalues (assumed eigh / eigvalsh contracts), d=2,3 (4); get_von_neumann_entropy / get_trace_distance / get_relative_entropy (numpy branch, same assumed contracts): one eigvalsh call on rho (the whole batch for batched input), -sum x log x of the reported spectrum; eigvalsh receives rho - sigma and the result is half the sum of absolute eigenvalues; eigh receives sigma, the result is -Re<rho, V log(w) V^dagger> + sum x log x, and a supplied tr(rho log rho) replaces the second eigenproblem. '
         'Bounded: conversions back to Kraus form end-to-end through LAPACK, data-processing inequalities, fidelity/entropy ranges, torch branches.',
    note=ALG_NOTE + ' The inequalities between spectral functions (trace distance, fidelity, relative entropy) cannot be decided by contract-based deduction; they are evaluated at run time on seeded channels/states (bounded).',
    tech=TECH + 'run-time contract evaluation for the spectral clauses as bounded stand-in'),
@@ -60,14 +60,14 @@ CHECKS.update({
    tech=TECH + 'numpy/torch run-time comparison as bounded stand-in'),
  'C17': dict(level='proof', ref='DESIGN.md §7 C17',
    text='utils.partial_trace == explicit double-loop contraction for every keep-subset (including empty and full) of every dimension list of length 2..3 (4 thorough) with entries 2..3 and total dimension <= 18 (36) on a fully symbolic operator; trace preserved; tracing in steps == one step. '
-        'Dicke basis == normalised sums of distinct permutations (exact), orthonormal, invariant under every adjacent transposition, klist = all compositions, count = binomial; partial_trace_ABk_to_AB == embed with the Dicke basis and trace k-1 copies for symbolic psi, (dimA,dimB,k) with dimA*dimB^k <= 64.',
+        'Dicke basis == normalised sums of distinct permutations (exact), orthonormal, invariant under every adjacent transposition, klist = all compositions, count = binomial; partial_trace_ABk_to_AB == embed with the Dicke basis and trace k-1 copies for symbolic psi, (dimA,dimB,k) with dimA*dimB^k <= 64; get_qubit_dicke_partial_trace likewise. Bounded: dims / keep given as lists, tuples, NumPy arrays and non-contiguous views give the same operator.',
    note=ALG_NOTE,
    tech=TECH + 'larger sizes and the torch branch as bounded run-time contracts'),
 })
 CHECKS.update({
  'C04': dict(level='other', ref='DESIGN.md §7 C04',
    text='Proved: the numpy adjoint kernels the reverse sweep is built from (apply_gate_grad, apply_control_n_gate_grad, inner_product_grad) against the DERIVATIVE of the real forward function, obtained by symbolic differentiation of what the forward computes on symbolic inputs '
-        '(PyTorch complex-gradient convention), n<=3, every target/control configuration. Bounded: the torch.autograd.Function bodies (circuit reverse sweep with shared / placeholder parameters, Knill-Laflamme inner product, PSD sqrtm, Pade logm, hf_model_wrapper) vs finite differences / autograd.',
+        '(PyTorch complex-gradient convention), n<=3, every target/control configuration. Bounded: the torch.autograd.Function bodies (circuit reverse sweep with shared / placeholder parameters, Knill-Laflamme inner product incl. multi-factor non-commuting error terms, PSD sqrtm incl. rank-deficient arguments (directional derivative), Pade logm, hf_model_wrapper) vs finite differences / autograd.',
    note=ALG_NOTE + ' torch tensors cannot be executed symbolically: everything inside torch.autograd.Function is bounded.' + BOUNDED_NOTE,
    tech=TECH + 'symbolic differentiation of the forward map as the specification; finite-difference run-time contracts as bounded stand-in'),
  'C10': dict(level='other', ref='DESIGN.md §7 C10',
@@ -77,12 +77,12 @@ CHECKS.update({
    tech='contract-based deductive verification: effect contracts (Det(seed)) checked per call site over the AST of the real source with signature resolution on the imported objects; dynamic replay of failures; run-time validity contracts as bounded stand-in'),
  'C15': dict(level='other', ref='DESIGN.md §7 C15',
    text='Proved (exact polynomial / trigonometric-polynomial identities on the real code): su2_to_so3 is a homomorphism with R R^T = |U|^4 I, det = |U|^6, R(-U)=R(U); angle_to_su2 in SU(2); angle_to_so3 orthogonal with det 1 and equal to su2_to_so3 o angle_to_su2; get_su2_irrep built from angles is unitary for j2<=3 (5 thorough) and equals angle_to_su2 for j2=1; so3_to_su2 and get_su2_irrep on matrix input are the angle routines applied to the extracted angles (delegation, recorder stubs). '
-        'Bounded: angle extraction round trips on the quantifier grid including beta in {0,pi} exactly, gamma over both sheets (0,4pi), batches built to contain both poles and generic rotations; D(matrix) == D(angles) and D(U1U2)=D(U1)D(U2) on structured rotations (poles, z-rotations beyond 2pi) and random matrices, j2<=10; su(2) commutators, Clebsch-Gordan orthogonality/intertwining.',
+        'Bounded: angle extraction round trips on the quantifier grid including beta in {0,pi} exactly, gamma over both sheets (0,4pi), batches built to contain both poles and generic rotations; D(angles) == expm of the spin-j generators in the documented convention and its inverse relation, D(matrix) == D(angles) and D(U1U2)=D(U1)D(U2) on structured rotations (poles, z-rotations beyond 2pi) and random matrices, j2<=10; su(2) commutators, Clebsch-Gordan orthogonality/intertwining.',
    note=ALG_NOTE + ' arccos/arctan branch logic with thresholds is outside deduction: bounded.' + BOUNDED_NOTE,
    tech=TECH + 'trigonometric normal form (half-angle base pairs, c^2+s^2=1); run-time contracts on the Euler-angle grid as bounded stand-in'),
  'C18': dict(level='other', ref='DESIGN.md §7 C18',
    text='Proved (identities in the SYMBOLIC parameter over its documented range): Werner / Isotropic equal their textbook formulas, unit trace, Hermitian (d=2..4); Horodecki 2x4 / 3x3 unit trace and symmetric; W-type normalised with amplitudes proportional to the coefficients; fixed kets (W, GHZ, Bell, maximally entangled / coherent) exactly normalised; '
-        'return_dm returns exactly the projector of the ket; maximally_mixed_state has unit trace; spectral certificates for Werner and Isotropic (d=2,3 (4)): N(alpha) rho(alpha) and its partial transpose are combinations of fixed complementary projectors whose coefficients are >= 0 on the whole documented range (PSD), >= 0 exactly on the separable range (PPT) and < 0 beyond it (NPT) - z3 linear arithmetic in alpha. Bounded (grids with end points): PSD / PPT / ranks of the other families, all load_upb kinds (orthonormal product vectors, PPT complement of rank D-|UPB|), POVMs and Chebyshev bases, closed-form REE/EOF/GME.',
+        'return_dm returns exactly the projector of the ket; maximally_mixed_state has unit trace; spectral certificates for Werner and Isotropic (d=2,3 (4)): N(alpha) rho(alpha) and its partial transpose are combinations of fixed complementary projectors whose coefficients are >= 0 on the whole documented range (PSD), >= 0 exactly on the separable range (PPT) and < 0 beyond it (NPT) - z3 linear arithmetic in alpha. Bounded (grids with end points): PSD / PPT / ranks of the other families, all load_upb kinds (orthonormal product vectors, PPT complement of rank D-|UPB|), POVMs and Chebyshev bases, closed-form REE/EOF/GME against independent oracles (Terhal-Vollbrecht, Vollbrecht-Werner, variational W-type GME), finite next to every branch point and independent of the numeric type of the parameter.',
    note=ALG_NOTE + ' Positivity/PPT/rank need eigenvalues: bounded.' + BOUNDED_NOTE,
    tech=TECH + 'range-typed parameter symbols for the documented preconditions; run-time contracts on parameter grids as bounded stand-in'),
  'C19': dict(level='exploration', ref='DESIGN.md §7 C19',
@@ -93,10 +93,10 @@ CHECKS.update({
 })
 CHECKS.update({
  'C01': dict(level='other', ref='DESIGN.md §7 C01',
-   text='Proved (numpy branch, all real theta, d=2,3 (4), every rank, batch (2,) == per-sample): sphere quotient/coordinate unit norm, ball norm < 1 (QF_NRA), open interval membership, exp positivity, simplex via sphere, trace-one PSD cholesky == L L^dagger with normalised L of rank columns, '
+   text='Proved (numpy branch, all real theta, d=2,3 (4), every rank, batch (2,) == per-sample): sphere quotient/coordinate unit norm, ball norm < 1 (QF_NRA), open interval membership, exp positivity, softplus > 0 and > x (the real _np_softplus in its three sign cases), simplex via sphere, trace-one PSD cholesky == L L^dagger with normalised L of rank columns, '
         'ensemble == convex mixture of normalised projectors, symmetric/Hermitian matrix with all trace0/norm1 options, the generator handed to expm is skew-Hermitian traceless, Cayley orthogonal/unitary for d=2 (exact inverse), Stiefel qr plumbing / polar rank 1 / real Euler chart, '
         'nn.Module.forward delegates to the functional map on the module parameters. Bounded: LAPACK-backed steps, all torch branches, float32, dims up to 5 (6), SeparableDensityMatrix / QuantumChannel.',
-   note=ALG_NOTE + ' Assumed contracts of externals: scipy.linalg.expm unitary with det 1 on skew-Hermitian traceless input, numpy.linalg.qr Q-factor orthonormal, softmax a probability vector, 0<expit<1, softplus>0.' + BOUNDED_NOTE,
+   note=ALG_NOTE + ' Assumed contracts of externals: scipy.linalg.expm unitary with det 1 on skew-Hermitian traceless input, numpy.linalg.qr Q-factor orthonormal, softmax a probability vector, 0<expit<1, exp>0, 0<log1p(e)<e for e>0.' + BOUNDED_NOTE,
    tech=TECH + 'z3 QF_NRA for inequalities with root/trig/exp axioms; run-time contracts over the full option lattice as bounded stand-in'),
  'C02': dict(level='other', ref='DESIGN.md §7 C02',
    text='Proved: the linear map theta -> generator of the exp / Cayley charts is injective (exact rank of its coefficient matrix, real and complex, d=2..5); parameter counts of every nn.Module constructor equal manifold dimension + documented gauge for d<=8, r<=d; '
@@ -109,7 +109,7 @@ EXPL_NOTE = ('Trusted: NumPy/LAPACK/SciPy/cvxpy float64 arithmetic with the stat
              'Eigenvalues, SDP/LP optimal values, Cholesky pivots and optimiser output are not reachable by contract-based deduction (no verifier for the numeric kernels): the deciding part is the run-time form of the contracts on enumerated/seeded inputs, labelled bounded and never counted as proved.')
 CHECKS.update({
  'C05': dict(level='exploration', ref='DESIGN.md §7 C05',
-   text='Bounded: every necessary criterion (PPT, generalized PPT, CCNR, reduction, swap witness, symmetric / bosonic extension SDPs k=2 (3 thorough)) passes on enumerated structured and seeded random separable states in dims (2,2)..(2,3,2), including boundary, rank-deficient and nearly parallel product terms; two-qubit concurrence / EOF / GME / negativity finite and zero on them. '
+   text='Bounded: every necessary criterion (PPT, generalized PPT, CCNR, reduction, swap witness, symmetric / bosonic extension SDPs k=2 (3 thorough)) passes on enumerated structured and seeded random separable states in dims (2,2)..(2,3,2), including boundary, rank-deficient and nearly parallel product terms, integer / float32 / complex64 inputs and dimension lists given as tuples, lists or non-contiguous NumPy views; two-qubit concurrence / EOF / GME / negativity finite and zero on them. '
         'Proved core (not claimed as the level): the matrices the criteria test are the partial transposes / realignments / reduction operators of a symbolic rho; the bipartition enumeration of the generalized PPT test is complete and duplicate-free; the verdicts of is_ppt / check_reduction_witness / is_generalized_ppt are exactly the conjunction of the PSD-oracle answers, resp. "every nuclear norm <= 1+1e-10" (every oracle answer pattern enumerated).',
    note=EXPL_NOTE, tech=TECH + 'here only for the index-algebra core; deciding part: run-time contract evaluation on separable states (bounded stand-in)'),
  'C06': dict(level='exploration', ref='DESIGN.md §7 C06',
@@ -117,12 +117,12 @@ CHECKS.update({
         'Proved core: hf_interpolate_dm places the state at exactly the requested Gell-Mann distance (identity in symbolic rho, beta); get_ppt_boundary hands exactly the partial transpose to get_density_matrix_boundary; get_density_matrix_boundary, with numpy.linalg.eigvalsh replaced by its assumed contract (ascending symbolic eigenvalues of the matrix it is given), calls it once on the state itself and returns exactly the lengths at which the extreme eigenvalue of the ray I/N + beta (rho - I/N)/norm vanishes, all others being non-negative there (QF_NRA), N=2..4 (6).',
    note=EXPL_NOTE + ' cvxpy SolverError in this sandbox (the CHA LP; its own test is in the always-failing baseline set) is counted as skipped, never as a violation.', tech=TECH + 'here only for the interpolation / delegation core; deciding part: run-time contract evaluation along seeded rays (bounded stand-in)'),
  'C13': dict(level='exploration', ref='DESIGN.md §7 C13',
-   text='Bounded: on seeded two-qubit states of every rank (Haar, Bures, Werner, isotropic, near-separable, boundary) concurrence / EOF / GME / negativity are finite, in range, related by the closed forms, local-unitary invariant and agree with the pure-state formulas; every variational convex-roof model at random parameters (scales 0.1, 1, 10; ensemble sizes rank..8) is >= the closed form - 1e-7. '
-        'Proved core: the spin-flip matrix whose spectrum get_concurrence_2qubit takes, the Wootters formula max(0, l_max - sum of the others) applied to the eigenvalues the eigen-routine reports, and get_concurrence_pure(psi)^2 == 2(1 - Tr rho_A^2) for symbolic psi.',
+   text='Bounded: on seeded two-qubit states of every rank (Haar, Bures, Werner, isotropic, near-separable, boundary) concurrence / EOF / GME / negativity are finite, in range, related by the closed forms, local-unitary invariant, independent of the input dtype (real arrays), leave their argument unchanged and agree with the pure-state formulas (8000 rotated Bell states up to C=1); every variational convex-roof model at random parameters (scales 0.1, 1, 10; ensemble sizes rank..8) is >= the closed form - 1e-7. '
+        'Proved core: the spin-flip matrix whose spectrum get_concurrence_2qubit takes, the Wootters formula max(0, l_max - sum of the others) applied to the eigenvalues the eigen-routine reports, get_concurrence_pure(psi)^2 == 2(1 - Tr rho_A^2) for symbolic psi; and, with the concurrence / eigenvalue routines replaced by recorders reporting fixed exact values: get_eof_2qubit and get_gme_2qubit call the concurrence routine once with rho itself and return h((1+sqrt(max(0,1-C^2)))/2) resp. (1-sqrt(max(0,1-C^2)))/2 of the reported C (C in {0, 3/5, 5/13, 1, 1+2^-50}), get_negativity takes the eigenvalues of the partial transpose (2x2, 2x3) and returns (sum of moduli - 1)/2, get_eof_pure takes the spectrum of a Gram matrix of psi and returns -sum x log x, 0 for product shapes.',
    note=EXPL_NOTE, tech=TECH + 'here only for the spin-flip / pure-state core; deciding part: run-time contract evaluation on seeded states and model parameters (bounded stand-in)'),
  'C14': dict(level='exploration', ref='DESIGN.md §7 C14',
    text='Exhaustive enumeration of the finite quantifier (exhaustive: true): every constructible Cayley table of order <= 120 satisfies the group axioms over ALL triples, left-regular forms are faithful homomorphisms over all pairs, irreducible blocks are unitary homomorphisms with sum dim^2 = |G| (order <= 24, 120 thorough), '
-        'irrep / partition / Young-diagram / standard-tableau counts equal the pentagonal recurrence, an independent partition generator and the hook-length formula (N <= 60 / 12 / 8 (10)), totient and primality vs a sieve.',
+        'irrep / partition / Young-diagram / standard-tableau counts equal the pentagonal recurrence, an independent partition generator and the hook-length formula (N <= 60 / 12 / 10 (12)), totient and primality vs a sieve.',
    note='The inputs are only sizes and every object is a concrete finite table: no value-symbolic contract applies; the contracts are evaluated on the complete finite domain. Trusted: NumPy integer arithmetic, float64 with tolerance 1e-7 for the irreducible blocks, the independent oracles in contracts/c14.py.',
    tech='exhaustive run-time evaluation of the contracts over the finite quantifier (bounded stand-in, exhaustive)'),
  'C20': dict(level='other', ref='DESIGN.md §7 C20, §10',
